@@ -98,8 +98,8 @@ dgstrs(trans_t trans, SuperMatrix *L, SuperMatrix *U,
     nrhs = B->ncol;
     if ( trans != NOTRANS && trans != TRANS && trans != CONJ ) *info = -1;
     /* for real matrices A**H = A**T: CONJ is solved like TRANS below */
-    else if ( L->nrow != L->ncol || L->nrow < 0 ) *info = -3;
-    else if ( U->nrow != U->ncol || U->nrow < 0 ) *info = -4;
+    else if ( L->nrow != L->ncol || L->nrow < 0 ) *info = -2;
+    else if ( U->nrow != U->ncol || U->nrow < 0 ) *info = -3;
     else if ( ldb < SUPERLU_MAX(0, L->nrow) ) *info = -6;
     if ( *info ) {
         i = -(*info);
